@@ -415,6 +415,8 @@ type cmd struct {
 	Dir  string `json:"dir"`
 	In   string `json:"in"`
 	Num  int32  `json:"num"`
+	Parallel int `json:"parallel"`
+	Rounds   int `json:"rounds"`
 	// burst
 	Burst *burstSpec `json:"burst"`
 	// patterns
@@ -741,6 +743,8 @@ func dispatch(c *cmd) {
 		doCall(c)
 	case "codec":
 		doCodec(c)
+	case "codecburst":
+		doCodecBurst(c)
 	case "enumcodec":
 		doEnumCodec(c)
 	case "patterns":
